@@ -118,7 +118,7 @@ package bytesconv
 // ReadHexInt: unless a Peek failed, success means: at least one and at most 15 hex digits were consumed,
 // the result is their value, and the next byte of the stream is not a hex digit (maximal munch).
 //@ func ReadHexInt(r) n, err
-//@   props C01, C03, C02, C14
+//@   props C01, C03, C02, C14, C11
 //@   requires r != nil
 //@   modifies r.pos, r.avail, r.failed, mem
 //@   allocates
